@@ -120,4 +120,17 @@ static void op_alias(int argc, char **argv)
   for (int c = 0; c < ncls; c++) { obj_clear(&a[c]); obj_clear(&a0[c]); }
 }
 
-const op_t ops_alias[] = { {"alias", op_alias}, {NULL, NULL} };
+/* mpz_aors_heap sub U V alias : mpz_add / mpz_sub on variables that own exactly the limbs they need (the destination one limb),
+   alias 0: w, u, v distinct | 1: w = u | 2: w = v | 3: u = v | 4: w = u = v : value, size field and allocation of w afterwards */
+static void op_aors_heap(int argc, char **argv)
+{
+  (void)argc; int sub = (int)arg_l(argv[1]), al = (int)arg_l(argv[4]);
+  mpz_t x[3]; parse_z(argv[2], x[0]); parse_z(argv[3], x[1]); mpz_init(x[2]); _mpz_realloc(x[2], 1);
+  mpz_ptr u = x[0], v = x[1], w = x[2];
+  if (al == 1) w = u; else if (al == 2) w = v; else if (al == 3) v = u; else if (al == 4) { v = u; w = u; }
+  if (sub) mpz_sub(w, u, v); else mpz_add(w, u, v);
+  out_zv(w); outl(SIZ(w)); outl(ALLOC(w));
+  if (!z_wf(w)) outs("BADFORMAT");
+  for (int i = 0; i < 3; i++) mpz_clear(x[i]);
+}
+const op_t ops_alias[] = { {"mpz_aors_heap", op_aors_heap}, {"alias", op_alias}, {NULL, NULL} };
